@@ -102,9 +102,9 @@ const c20Block = 8
 func (p *c20) NumCases(tier string) int {
 	n := (len(p.subsets(tier)) + c20Block - 1) / c20Block
 	if tier == "thorough" {
-		return n*2 + 200
+		return n*2 + 202
 	}
-	return n + 24
+	return n + 26
 }
 
 // parallelClients: 2-8 goroutines, each with its OWN client and its own native interpreter, dispatch at the
@@ -474,7 +474,11 @@ func (p *c20) RunCase(ctx *runner.Ctx) runner.CaseResult {
 		seqCases = nblocks * 2
 	}
 	if ctx.Case >= seqCases {
-		p.parallelClients(x, ctx.Case-seqCases, ctx)
+		if ctx.Case-seqCases < 2 {
+			p.interpreterSwap(x, adapt.Adapters[ctx.Case-seqCases], ctx)
+			return x.r
+		}
+		p.parallelClients(x, ctx.Case-seqCases-2, ctx)
 		return x.r
 	}
 	block := ctx.Case % nblocks
